@@ -461,7 +461,25 @@ def job_sched(j):
             reconf_at = rng.choice([0, 1])  # before the first call, or after it (call, reload, call on one object)
         for _rep in range(j.get("reps", 2)):
             if reconf_at == _rep:
+                if rng.random() < 0.25:
+                    # a deep copy of the DAG is configured differently first (and dropped): the two objects share nothing
+                    import copy as _copy
+
+                    try:
+                        twin_ = _copy.deepcopy(d)
+                        reconfigure(random.Random(rng.random()), sp, twin_, ids, j.get("gen", {}).get("mc_max", 4), keep_mc=0.0)
+                        col.counters["deep_copies_configured_differently_before_the_reload"] += 1
+                    except BaseException as e:  # noqa: BLE001
+                        if isinstance(e, (KeyboardInterrupt, SystemExit)):
+                            raise
+                        col.counters["deep_copy_or_its_reload_refused:%s" % type(e).__name__] += 1
                 sp = reconfigure(rng, sp, d, ids, j.get("gen", {}).get("mc_max", 4))
+                if rng.random() < 0.12:
+                    # ... and what is scheduled from here on is a shallow copy (copy.copy) of the re-configured object
+                    import copy as _copy
+
+                    d = _copy.copy(d)
+                    col.counters["shallow_copies_of_reconfigured_dags_scheduled"] += 1
                 if rng.random() < 0.4:
                     # ... and a SECOND reload right after it: what the first one set and the second one does not mention stays set
                     sp = reconfigure(rng, sp, d, ids, j.get("gen", {}).get("mc_max", 4), keep_mc=0.6)
